@@ -110,7 +110,7 @@ func (mi *MessageInfo) sizePointerSlow(p pointer, opts marshalOptions) (size int
 		}
 		size += f.funcs.size(fptr, f, opts)
 	}
-	if mi.unknownOffset.IsValid() {
+	if mi.unknownOffset.IsValid() && !mi.isMessageSet {
 		if u := mi.getUnknownBytes(p); u != nil {
 			size += len(*u)
 		}
